@@ -126,14 +126,16 @@ def pseudo (v6 : Bool) (src dst : Bytes) (proto len : Nat) : Except Err Bytes :=
   if v6 then
     if len < 4294967296 then .ok (src ++ dst ++ Bytes.ofNatBE 4 len ++ [0, 0, 0] ++ [UInt8.ofNat proto])
     else .error .value                     -- IntField uplen
-  else do
-    let l ← packH len                      -- struct.pack("!4s4sHH", …)
-    pure (src ++ dst ++ Bytes.ofNatBE 2 proto ++ l)
+  else
+    match packH len with                   -- struct.pack("!4s4sHH", …)
+    | .error e => .error e
+    | .ok l => .ok (src ++ dst ++ Bytes.ofNatBE 2 proto ++ l)
 
 /-- `in4_chksum(proto, underlayer, p)` / `in6_chksum(nh, underlayer, p)` -/
-def l4Checksum (v6 : Bool) (src dst : Bytes) (proto : Nat) (p : Bytes) : Except Err Nat := do
-  let ph ← pseudo v6 src dst proto p.length
-  pure (checksum (ph ++ p))
+def l4Checksum (v6 : Bool) (src dst : Bytes) (proto : Nat) (p : Bytes) : Except Err Nat :=
+  match pseudo v6 src dst proto p.length with
+  | .error e => .error e
+  | .ok ph => .ok (checksum (ph ++ p))
 
 /-! ### the layers -/
 
@@ -145,59 +147,71 @@ def tcpHeader (sport dport flags seq ack ck : Nat) : Bytes :=
     Bytes.ofNatBE 2 ck ++ [0, 0]
 
 /-- `TCP.post_build`: the checksum is computed over the segment with a zero field and written as it is -/
-def tcpSegment (v6 : Bool) (src dst : Bytes) (sport dport flags seq ack : Nat) (pay : Bytes) : Except Err Bytes := do
-  let ck ← l4Checksum v6 src dst 6 (tcpHeader sport dport flags seq ack 0 ++ pay)
-  pure (tcpHeader sport dport flags seq ack ck ++ pay)
+def tcpSegment (v6 : Bool) (src dst : Bytes) (sport dport flags seq ack : Nat) (pay : Bytes) : Except Err Bytes :=
+  match l4Checksum v6 src dst 6 (tcpHeader sport dport flags seq ack 0 ++ pay) with
+  | .error e => .error e
+  | .ok ck => .ok (tcpHeader sport dport flags seq ack ck ++ pay)
 
 /-- the 8 UDP header bytes -/
 def udpHeader (sport dport len ck : Nat) : Bytes :=
   Bytes.ofNatBE 2 sport ++ Bytes.ofNatBE 2 dport ++ Bytes.ofNatBE 2 len ++ Bytes.ofNatBE 2 ck
 
 /-- `UDP.post_build`: length first (`struct.error` when it does not fit), then the checksum, zero sent as 0xFFFF -/
-def udpSegment (v6 : Bool) (src dst : Bytes) (sport dport : Nat) (pay : Bytes) : Except Err Bytes := do
-  let len := 8 + pay.length
-  let _ ← packH len
-  let ck ← l4Checksum v6 src dst 17 (udpHeader sport dport len 0 ++ pay)
-  let ck := if ck = 0 then 0xFFFF else ck
-  pure (udpHeader sport dport len ck ++ pay)
+def udpSegment (v6 : Bool) (src dst : Bytes) (sport dport : Nat) (pay : Bytes) : Except Err Bytes :=
+  match packH (8 + pay.length) with
+  | .error e => .error e
+  | .ok _ =>
+    match l4Checksum v6 src dst 17 (udpHeader sport dport (8 + pay.length) 0 ++ pay) with
+    | .error e => .error e
+    | .ok ck => .ok (udpHeader sport dport (8 + pay.length) (if ck = 0 then 0xFFFF else ck) ++ pay)
 
 /-- the 20 IPv4 header bytes -/
 def ipv4Header (src dst : Bytes) (proto len ck : Nat) : Bytes :=
   [0x45, 0] ++ Bytes.ofNatBE 2 len ++ [0, 1, 0, 0, 64, UInt8.ofNat proto] ++ Bytes.ofNatBE 2 ck ++ src ++ dst
 
 /-- `IP.post_build` -/
-def ipv4 (src dst : Bytes) (proto : Nat) (pay : Bytes) : Except Err Bytes := do
-  let len := 20 + pay.length
-  let _ ← packH len
-  let ck := checksum (ipv4Header src dst proto len 0)
-  pure (ipv4Header src dst proto len ck ++ pay)
+def ipv4 (src dst : Bytes) (proto : Nat) (pay : Bytes) : Except Err Bytes :=
+  match packH (20 + pay.length) with
+  | .error e => .error e
+  | .ok _ =>
+    .ok (ipv4Header src dst proto (20 + pay.length) (checksum (ipv4Header src dst proto (20 + pay.length) 0)) ++ pay)
 
 /-- the 40 IPv6 header bytes -/
 def ipv6Header (src dst : Bytes) (nh plen : Nat) : Bytes :=
   [0x60, 0, 0, 0] ++ Bytes.ofNatBE 2 plen ++ [UInt8.ofNat nh, 64] ++ src ++ dst
 
 /-- `IPv6.post_build` -/
-def ipv6 (src dst : Bytes) (nh : Nat) (pay : Bytes) : Except Err Bytes := do
-  let _ ← packH pay.length
-  pure (ipv6Header src dst nh pay.length ++ pay)
+def ipv6 (src dst : Bytes) (nh : Nat) (pay : Bytes) : Except Err Bytes :=
+  match packH pay.length with
+  | .error e => .error e
+  | .ok _ => .ok (ipv6Header src dst nh pay.length ++ pay)
 
 def L4.proto : L4 → Nat
   | .tcp .. => 6
   | .udp => 17
 
-/-- `bytes(packet)` for the packet the builders make of `f` -/
-def serializeFrame (f : Frame) : Except Err Bytes := do
-  -- self_build: the only fields that may not hold their value are in the transport layer
-  if f.src.port ≥ 65536 ∨ f.dst.port ≥ 65536 then throw .value
+/-- `self_build` of the transport layer: do the fixed-width fields hold their values? -/
+def L4.fieldsFit : L4 → Bool
+  | .tcp _ seq ack => seq < 4294967296 && ack < 4294967296
+  | .udp => true
+
+/-- `post_build` of the transport layer -/
+def l4Segment (f : Frame) : Except Err Bytes :=
   match f.l4 with
-  | .tcp _ seq ack => if seq ≥ 4294967296 ∨ ack ≥ 4294967296 then throw .value
-  | .udp => pure ()
-  -- post_build, innermost layer first
-  let seg ← match f.l4 with
-    | .tcp flags seq ack => tcpSegment f.ipv6 f.src.ip f.dst.ip f.src.port f.dst.port flags seq ack f.payload
-    | .udp => udpSegment f.ipv6 f.src.ip f.dst.ip f.src.port f.dst.port f.payload
-  let ip ← if f.ipv6 then ipv6 f.src.ip f.dst.ip f.l4.proto seg else ipv4 f.src.ip f.dst.ip f.l4.proto seg
-  pure (f.dstMac ++ f.srcMac ++ (if f.ipv6 then [0x86, 0xDD] else [0x08, 0x00]) ++ ip)
+  | .tcp flags seq ack => tcpSegment f.ipv6 f.src.ip f.dst.ip f.src.port f.dst.port flags seq ack f.payload
+  | .udp => udpSegment f.ipv6 f.src.ip f.dst.ip f.src.port f.dst.port f.payload
+
+/-- `bytes(packet)` for the packet the builders make of `f`: `self_build` of every layer (only the transport layer
+    has fields that may not hold their value), then `post_build` from the innermost layer outwards -/
+def serializeFrame (f : Frame) : Except Err Bytes :=
+  if ¬ (f.src.port < 65536 ∧ f.dst.port < 65536 ∧ f.l4.fieldsFit = true) then .error .value
+  else
+    match l4Segment f with
+    | .error e => .error e
+    | .ok seg =>
+      match (if f.ipv6 then ipv6 f.src.ip f.dst.ip f.l4.proto seg else ipv4 f.src.ip f.dst.ip f.l4.proto seg) with
+      | .error e => .error e
+      | .ok ip => .ok (f.dstMac ++ f.srcMac ++ (if f.ipv6 then [0x86, 0xDD] else [0x08, 0x00]) ++ ip)
 
 /-- `bytes(buf)` for an element of the TLS export -/
 def serialize (p : Pipeline.OutPkt) : Except Err Bytes := serializeFrame (Frame.ofOutPkt p)
@@ -233,29 +247,39 @@ def epb (pkt : Bytes) (us : Nat) : Except Err Bytes :=
 
 def epbs : List (Bytes × Nat) → Except Err Bytes
   | [] => .ok []
-  | (pkt, us) :: rest => do
-    let b ← epb pkt us
-    let r ← epbs rest
-    pure (b ++ r)
+  | (pkt, us) :: rest =>
+    match epb pkt us with
+    | .error e => .error e
+    | .ok b =>
+      match epbs rest with
+      | .error e => .error e
+      | .ok r => .ok (b ++ r)
 
 /-- the file `Writer(file, snaplen=20000)` + `writepkt(frame, ts)` for every `(frame, µs)` leave behind -/
-def pcapng (pkts : List (Bytes × Nat)) : Except Err Bytes := do
-  let body ← epbs pkts
-  pure (shb ++ idb 20000 ++ body)
+def pcapng (pkts : List (Bytes × Nat)) : Except Err Bytes :=
+  match epbs pkts with
+  | .error e => .error e
+  | .ok body => .ok (shb ++ idb 20000 ++ body)
 
 /-- the write loop of main.py 290-291: `bytes(buf)` and `writepkt` alternate, so the first exception in file order wins -/
 def fileBody : List Frame → Except Err Bytes
   | [] => .ok []
-  | f :: rest => do
-    let b ← serializeFrame f
-    let e ← epb b f.ts
-    let r ← fileBody rest
-    pure (e ++ r)
+  | f :: rest =>
+    match serializeFrame f with
+    | .error e => .error e
+    | .ok b =>
+      match epb b f.ts with
+      | .error e => .error e
+      | .ok e =>
+        match fileBody rest with
+        | .error er => .error er
+        | .ok r => .ok (e ++ r)
 
 /-- main.py 286-291 for a list of exported frames -/
-def fileOfFrames (fs : List Frame) : Except Err Bytes := do
-  let body ← fileBody fs
-  pure (shb ++ idb 20000 ++ body)
+def fileOfFrames (fs : List Frame) : Except Err Bytes :=
+  match fileBody fs with
+  | .error e => .error e
+  | .ok body => .ok (shb ++ idb 20000 ++ body)
 
 /-- … for the TLS export of `Pipeline` -/
 def fileOf (pkts : List Pipeline.OutPkt) : Except Err Bytes := fileOfFrames (pkts.map Frame.ofOutPkt)
